@@ -9,6 +9,8 @@ na = json.load(open(os.path.join(HERE, "props", "not_applicable.json")))
 checks = []
 for pid in claimed:
     m = importlib.import_module("props." + pid)
+    if getattr(m, "PENDING", False):
+        continue
     meta = m.MANIFEST
     checks.append({
         "property_id": pid,
@@ -21,6 +23,13 @@ for pid in claimed:
         "level_note": meta["note"],
         "technique": meta["technique"],
     })
+def hook_commits():
+    import subprocess
+    out = subprocess.run(["git", "-C", "/repo", "log", "--format=%h %s"], capture_output=True, text=True).stdout
+    return [l.split()[0] for l in out.splitlines() if l.split(" ", 1)[1].startswith("verif hooks")][::-1]
+
+
+claimed = [c["property_id"] for c in checks]
 not_app = [{"property_id": pid, "reason": na[pid]} for pid in ids if pid not in claimed]
 for x in not_app:
     assert x["reason"]
@@ -31,7 +40,7 @@ man = {
         "guard": "verif",
         "enable": "go build -tags verif (history ties: -tags 'verif synctests'); the harness module /verif/harness replaces the franz-go modules by /repo",
         "baseline_off_cmd": "for m in . ./pkg/kadm ./pkg/kfake ./pkg/kmsg ./pkg/sasl/kerberos ./pkg/sr ./plugin/kgmetrics ./plugin/klogr ./plugin/klogrus ./plugin/kotel ./plugin/kphuslog ./plugin/kprom ./plugin/kslog ./plugin/kvictoria ./plugin/kzap ./plugin/kzerolog; do (cd /repo/$m && go test -mod=mod -vet=off -count=1 -timeout 25m ./...); done",
-        "source_commits": json.load(open(os.path.join(HERE, "props", "hook_commits.json"))),
+        "source_commits": hook_commits(),
         "add_only": True,
     },
     "engines": [{"name": "lean4+differential", "path": "/verif/check", "serves_properties": claimed,
